@@ -248,6 +248,98 @@ static void *ThreadMain(void *p)
 	return nullptr;
 }
 
+// ---- dsl_retry: identical expressions evaluated repeatedly in ONE environment must have identical outcomes ----
+static std::string RetryOutcome(Expression *e, ScriptFrame& frame)
+{
+	try {
+		ExpressionResult r = e->Evaluate(frame);
+		return "value " + ShowV(r.GetValue());
+	} catch (const std::exception&) {
+		return "error";
+	} catch (...) {
+		return "error";
+	}
+}
+
+struct RetryArg { std::string a, b, loop; bool wa, wb; std::string line; };
+
+static void *RetryMain(void *p)
+{
+	RetryArg *ra = static_cast<RetryArg *>(p);
+	std::set<String> before = GlobalKeys();
+	std::string line;
+	try {
+		ScriptFrame frame(true, new Dictionary());
+		std::unique_ptr<Expression> ea = ConfigCompiler::CompileText("<c15ra>", ra->a);
+		std::unique_ptr<Expression> eb = ConfigCompiler::CompileText("<c15rb>", ra->b);
+		std::unique_ptr<Expression> el = ConfigCompiler::CompileText("<c15rl>", ra->loop);
+		if (!ea || !eb || !el || dynamic_cast<ThrowExpression *>(ea.get()) || dynamic_cast<ThrowExpression *>(eb.get()) || dynamic_cast<ThrowExpression *>(el.get())) {
+			line = "retry syntax";
+		} else {
+			std::string a1 = RetryOutcome(ea.get(), frame);
+			std::string b1 = RetryOutcome(eb.get(), frame);
+			std::string b2 = RetryOutcome(eb.get(), frame);
+			std::string b3 = RetryOutcome(eb.get(), frame);
+			std::string a2 = RetryOutcome(ea.get(), frame);
+			// the same text compiled anew
+			std::unique_ptr<Expression> eb2 = ConfigCompiler::CompileText("<c15rb2>", ra->b);
+			std::string b4 = eb2 ? RetryOutcome(eb2.get(), frame) : "syntax";
+			// three evaluations inside a loop body, each caught by try/except, in a fresh frame on the same stack
+			std::string lp;
+			{
+				ScriptFrame lframe(true, new Dictionary());
+				lp = RetryOutcome(el.get(), lframe);
+			}
+			std::string a3 = RetryOutcome(ea.get(), frame);
+			std::string item = b1 == "error" ? "\"error\"" : b1.substr(6);
+			std::string want = "value [" + item + "," + item + "," + item + "]";
+			auto cls = [](const std::string& o) { return o == "error" ? std::string("error") : std::string("value"); };
+			if (a1 == a2 && a2 == a3 && b1 == b2 && b2 == b3 && b3 == b4 && lp == want) {
+				line = "retry ok";
+				if (ra->wa) line += " a=" + cls(a1);
+				if (ra->wb) line += " b=" + cls(b1);
+			} else {
+				auto cut = [](const std::string& o) { return o.size() > 60 ? o.substr(0, 60) + ".." : o; };
+				line = "retry inconsistent a=[" + cut(a1) + "|" + cut(a2) + "|" + cut(a3) + "] b=[" + cut(b1) + "|" + cut(b2) + "|" + cut(b3) + "|" + cut(b4) + "] loop=" + cut(lp);
+			}
+		}
+	} catch (const std::exception&) {
+		line = "retry syntax";
+	}
+	Namespace::Ptr g = ScriptGlobal::GetGlobals();
+	std::vector<String> added;
+	{ ObjectLock l(g); for (const Namespace::Pair& kv : g) if (!before.count(kv.first)) added.push_back(kv.first); }
+	for (auto& k : added) DropGlobal(g, k);
+	ra->line = line;
+	return nullptr;
+}
+
+// dsl_retry a=<hex expr> b=<hex expr> loop=<hex program> mode=main|thread|coro [wa=1] [wb=1]
+// a1 b1 b2 b3 a2 b(recompiled) loop(3x b in try/except) a3 in one environment on one stack: prints "retry ok [a=<class>] [b=<class>]"
+// iff the three a outcomes are identical, the four b outcomes are identical and the loop logged that same outcome three times
+VOP(dsl_retry)
+{
+	LimitStack();
+	RetryArg ra{HexDec(a.str("a", "-")), HexDec(a.str("b", "-")), HexDec(a.str("loop", "-")), a.has("wa"), a.has("wb"), ""};
+	std::string mode = a.str("mode", "main");
+	if (mode == "coro") {
+		typedef boost::coroutines::asymmetric_coroutine<void>::pull_type Pull;
+		typedef boost::coroutines::asymmetric_coroutine<void>::push_type Push;
+		Pull co([&](Push&) { RetryMain(&ra); }, boost::coroutines::attributes(IoEngine::GetCoroutineStackSize()),
+			boost::coroutines::protected_stack_allocator());
+	} else if (mode == "thread") {
+		pthread_attr_t attr;
+		pthread_attr_init(&attr);
+		pthread_attr_setstacksize(&attr, 512 * 1024);
+		pthread_t th;
+		pthread_create(&th, &attr, RetryMain, &ra);
+		pthread_join(th, nullptr);
+	} else {
+		RetryMain(&ra);
+	}
+	Out(ra.line);
+}
+
 static std::string HostileDispatch(const std::string& src, const std::string& mode);
 
 VOP(dsl_hostile)
